@@ -1,5 +1,5 @@
 use crate::{base::SlotChain, circuitbreaker, flow, hotspot, isolation, stat, system};
-use lazy_static::lazy_static;
+use crate::vsync::lazy_static;
 use std::sync::Arc;
 
 lazy_static! {
